@@ -128,6 +128,21 @@ def merge(prop, tier, seed, nshards, outs, dead):
 def finish(mod, prop, tier, seed, m, wall, write_evidence, quiet) -> int:
     known = [k for k in load_known() if k["property"] == prop]
     level = getattr(mod, "LEVEL", "exploration")
+    extra_cov, extra_inconclusive = {}, []
+    if hasattr(mod, "finalize"):
+        # verdicts that need the merged observations of all shards (e.g. a chi-square over pooled counts)
+        try:
+            fin = mod.finalize(m, tier, seed) or {}
+        except Exception as e:  # noqa: BLE001
+            import traceback
+            fin = dict(inconclusive=[f"finalize crashed: {type(e).__name__}: {e} {traceback.format_exc()[-600:]}"])
+        for v in fin.get("violations", []):
+            rec = dict(property=prop, mechanism=v["mechanism"], detail=str(v.get("detail", ""))[:3000], case=v.get("case"),
+                       shard=-1, nshards=m["nshards"], tier=tier, seed=seed)
+            m["violations"].append(rec)
+            m["viol_counts"][v["mechanism"]] = m["viol_counts"].get(v["mechanism"], 0) + 1
+        extra_inconclusive = list(fin.get("inconclusive", []))
+        extra_cov = dict(fin.get("coverage", {}))
     unlisted, listed = [], {}
     for v in m["violations"]:
         hit = None
@@ -140,7 +155,7 @@ def finish(mod, prop, tier, seed, m, wall, write_evidence, quiet) -> int:
         else:
             listed.setdefault(hit["mechanism"], (hit, []))[1].append(v)
 
-    inconclusive = []
+    inconclusive = list(extra_inconclusive)
     for s, rc, tail in m["dead"]:
         inconclusive.append(f"shard {s} died/timed out rc={rc}: {tail[-400:]!r}")
     if m["tallies"].get("shard-crash"):
@@ -199,6 +214,7 @@ def finish(mod, prop, tier, seed, m, wall, write_evidence, quiet) -> int:
         shard_wall_s=m["shard_wall"],
         notes=m["notes"][:10],
     )
+    cov.update(extra_cov)
     ev = dict(
         property_id=prop, tier=tier, seed=int(seed), level=level, coverage=cov,
         assumptions=list(getattr(mod, "ASSUMPTIONS", [])),
@@ -252,6 +268,6 @@ def replay(prop: str, path: str) -> int:
     with open(path) as f:
         v = json.load(f)
     print(f"replaying shard {v['shard']}/{v['nshards']} tier={v['tier']} seed={v['seed']} looking for {v['mechanism']}")
-    rc = run_check(prop, v["tier"], v["seed"], only_shard=v["shard"], nshards_override=v["nshards"],
+    rc = run_check(prop, v["tier"], v["seed"], only_shard=(v["shard"] if v["shard"] >= 0 else None), nshards_override=v["nshards"],
                    write_evidence=False)
     return rc
